@@ -1,9 +1,10 @@
 #!/bin/bash
 # usage: tools/seedtest.sh <patch.diff> <prop> [<prop>...]   -- apply a seeded change to /repo, run checks, undo
 patch=$1; shift
+if [ -n "$(git -C /repo status --porcelain)" ]; then echo "/repo is dirty - refusing"; exit 8; fi
+trap 'git -C /repo checkout -- .' EXIT
 git -C /repo apply "$patch" || exit 9
 for p in "$@"; do
   out=$(cd /verif && ./check $p 2>&1); code=$?
   echo "== $p exit=$code"; echo "$out" | grep -E "VIOLATION|KNOWN|CHECKER-ERROR|bounded-only" | cut -c1-260
 done
-git -C /repo checkout -- .
